@@ -6,14 +6,12 @@
 -/
 import H2.Proofs.Shapes
 import H2.Proofs.Closed
+import H2.Proofs.StreamLemmas
 
 namespace H2.C08
 open H2 H2.Gen H2.Conn
 
-def accepted (sh : Shape) (i : StreamInputs) : Bool :=
-  match (stepShape sh i).1 with
-  | .ok _ => true
-  | _ => false
+abbrev accepted (sh : Shape) (i : StreamInputs) : Bool := okStep sh i
 
 /-- a stream whose role is "client" never accepts SEND_PUSH_PROMISE, in any state -/
 theorem C08_client_never_pushes : ∀ sh, (!Good sh || sh.client != some true || !accepted sh .SEND_PUSH_PROMISE) = true :=
@@ -55,6 +53,88 @@ theorem C08_data_after_headers_partial : ∀ sh, (!Good sh || sh.client != some 
 theorem C08_server_data_before_headers_witness :
     Good { state := .OPEN, client := some false, headersReceived := true } = true ∧
     accepted { state := .OPEN, client := some false, headersReceived := true } .SEND_DATA = true := by decide
+
+/-! ### a refused `send_headers` does not count as headers sent (fix 3adcb20) -/
+
+/-- the three fields `send_headers` saves before the transition and restores when the block is refused;
+    an input the table itself refuses closes the stream (that is `process_input`'s documented reaction) -/
+def frozen (a b : Shape) : Bool :=
+  b.headersSent == a.headersSent && b.trailersSent == a.trailersSent && (b.state == a.state || b.state == .CLOSED)
+
+theorem refused_transition_frozen : ∀ sh i, (okStep sh i ||
+    !(i == .SEND_HEADERS || i == .SEND_INFORMATIONAL_HEADERS) || frozen sh (stepShape sh i).2) = true :=
+  forall_shape_input (by decide +kernel)
+
+/-- END_STREAM on the final header block is always accepted right after the block itself was -/
+theorem end_stream_after_headers : ∀ sh,
+    (!okStep sh .SEND_HEADERS || okStep (stepShape sh .SEND_HEADERS).2 .SEND_END_STREAM) = true :=
+  forall_shape (by decide +kernel)
+
+theorem sendHeadersAs_refused (input : StreamInputs) (cfg : Config) (hs : List Header) (es pp : Bool) (st : Stream × Hp)
+    (hin : input = .SEND_HEADERS ∨ (input = .SEND_INFORMATIONAL_HEADERS ∧ es = false)) :
+    wp (Stream.sendHeadersAs input cfg hs es pp) (fun _ _ => True)
+      (fun _ t => frozen st.1.sm.sh t.1.sm.sh = true) st := by
+  simp only [Stream.sendHeadersAs, onStream]
+  wps
+  apply wp_processInput_sharp
+  · intro evs sh hstep
+    wps
+    refine wp_mono (guarded_frame cfg hs es pp evs _) ?_ ?_
+    · intro blocks t ht
+      split
+      · -- END_STREAM follows: only on final headers, and the table accepts it there
+        wps
+        rw [ht]
+        apply wp_processInput_sharp
+        · intros; trivial
+        · intro e sh2 hbad _
+          exfalso
+          have hE := end_stream_after_headers st.1.sm.sh
+          rcases hin with h | ⟨_, h⟩
+          · subst h
+            simp only [okStep, hstep] at hE
+            simp only [okStep] at hbad
+            simp_all
+          · simp_all
+      · wps
+    · intro e t _
+      simp [frozen, Stream.restoreSaved]
+  · intro e sh hbad hsh
+    have hT := refused_transition_frozen st.1.sm.sh input
+    rcases hin with h | ⟨h, _⟩ <;> subst h <;> simp_all
+
+/-- **whenever `H2Stream.send_headers` raises** — informational with END_STREAM, a transition the table refuses,
+    trailers without END_STREAM, header validation, the encoder, fragmentation — the stream's `headers_sent`
+    and `trailers_sent` are what they were and its state is what it was (or CLOSED when the table refused the
+    input): a refused header block never makes DATA / END_STREAM / trailers acceptable afterwards -/
+theorem C08_refused_headers_leave_stream_state (cfg : Config) (hs : List Header) (es pp : Bool) (st : Stream × Hp) :
+    wp (Stream.sendHeaders cfg hs es pp) (fun _ _ => True)
+      (fun _ t => frozen st.1.sm.sh t.1.sm.sh = true) st := by
+  have hrefl : frozen st.1.sm.sh st.1.sm.sh = true := by simp [frozen]
+  simp only [Stream.sendHeaders]
+  wps
+  split
+  · split
+    · rename_i info _
+      split
+      · exact hrefl
+      · apply sendHeadersAs_refused
+        cases info <;> cases es <;> simp_all
+    · exact hrefl
+  · simp only [Bool.false_and, Bool.false_eq_true, if_false]
+    exact sendHeadersAs_refused _ _ _ _ _ _ (Or.inl rfl)
+
+/-- … and from an idle, reserved(local) or closed stream that did not move, DATA and END_STREAM are refused -/
+theorem C08_no_data_from_unopened_states : ∀ sh, (!(sh.state == .IDLE || sh.state == .RESERVED_LOCAL ||
+    sh.state == .RESERVED_REMOTE || sh.state == .CLOSED) ||
+    (!accepted sh .SEND_DATA && !accepted sh .SEND_END_STREAM)) = true :=
+  forall_shape (by decide +kernel)
+
+/-- non-vacuity: response headers on a promised stream are accepted by the table (so the restore is what keeps
+    the stream reserved when the block is then refused), and restoring really brings the state back -/
+example : accepted { state := .RESERVED_LOCAL, client := some false, headersReceived := true } .SEND_HEADERS = true ∧
+    (stepShape { state := .RESERVED_LOCAL, client := some false, headersReceived := true } .SEND_HEADERS).2.state
+      = .HALF_CLOSED_REMOTE := by decide
 
 /-! ### connection level -/
 
